@@ -314,7 +314,8 @@ class Ctx:
             with open(rp, "w") as fh:
                 json.dump({"property": self.pid, "signature": f["sig"], "what": f["what"],
                            "tier": self.tier, "seed": self.seed, "cases": f["count"], "replay": f["replay"]}, fh, indent=1, default=str)
-            print("VIOLATION property=%s replay=%s" % (self.pid, rp))
+            # an extension check (X10, X12) run as part of a property's thorough tier reports under that property's id
+            print("VIOLATION property=%s replay=%s" % (os.environ.get("VERIF_REPORT_AS", self.pid), rp))
             print("  signature=%s cases=%d :: %s" % (f["sig"], f["count"], f["what"]))
         for sig, (k, fs) in seen_known.items():
             print("KNOWN-FINDING: property=%s %s (%d case(s) this run, signature %s)" % (self.pid, k["what"], sum(x["count"] for x in fs), sig))
